@@ -232,6 +232,26 @@ def readField (env : CEnv) (payload : Bytes) (pos : Nat) : Except CookieErr (Str
     | none => .error .unicode
     | some s => .ok (s, pos + Gen.Pkce.widthLen + n)
 
+/-- the part of `_unpack_oauth_cookie` after the signature check: version, age, the four fields -/
+def parsePayload (env : CEnv) (now : Int) (maxAge : Int) (payload : Bytes) : Except CookieErr Fields :=
+  if leVal (payload.take Gen.Pkce.widthVersion) != Gen.Pkce.sessionCookieVersion then .error .version
+  else
+    let createdAt : Int := leVal ((payload.drop Gen.Pkce.widthVersion).take Gen.Pkce.widthCreated)
+    if maxAge > 0 && (now - createdAt < 0 || now - createdAt > maxAge) then .error .expired
+    else
+      match readField env payload (Gen.Pkce.widthVersion + Gen.Pkce.widthCreated) with
+      | .error e => .error e
+      | .ok (cv, p1) =>
+        match readField env payload p1 with
+        | .error e => .error e
+        | .ok (st, p2) =>
+          match readField env payload p2 with
+          | .error e => .error e
+          | .ok (ou, p3) =>
+            match readField env payload p3 with
+            | .error e => .error e
+            | .ok (rt, _) => .ok ⟨cv, st, ou, rt⟩
+
 /-- `_unpack_oauth_cookie(cookie_value, session_key, max_age)` at time `now` -/
 def unpack (env : CEnv) (key : Bytes) (now : Int) (maxAge : Int) (cookie : Str) : Except CookieErr Fields :=
   match env.b64dec cookie with
@@ -242,23 +262,7 @@ def unpack (env : CEnv) (key : Bytes) (now : Int) (maxAge : Int) (cookie : Str) 
       let payload := raw.take (raw.length - Gen.Pkce.hmacLen)
       let mac := raw.drop (raw.length - Gen.Pkce.hmacLen)
       if mac != env.mac key payload then .error .signature
-      else if leVal (payload.take Gen.Pkce.widthVersion) != Gen.Pkce.sessionCookieVersion then .error .version
-      else
-        let createdAt : Int := leVal ((payload.drop Gen.Pkce.widthVersion).take Gen.Pkce.widthCreated)
-        if maxAge > 0 && (now - createdAt < 0 || now - createdAt > maxAge) then .error .expired
-        else
-          match readField env payload (Gen.Pkce.widthVersion + Gen.Pkce.widthCreated) with
-          | .error e => .error e
-          | .ok (cv, p1) =>
-            match readField env payload p1 with
-            | .error e => .error e
-            | .ok (st, p2) =>
-              match readField env payload p2 with
-              | .error e => .error e
-              | .ok (ou, p3) =>
-                match readField env payload p3 with
-                | .error e => .error e
-                | .ok (rt, _) => .ok ⟨cv, st, ou, rt⟩
+      else parsePayload env now maxAge payload
 
 /-! ## the flow -/
 
